@@ -91,6 +91,20 @@ def vector(req, kind, host, port, sel="ok", tls=False, beside=""):
             # the selection and the (successful) answer to the request arrive in one segment; the application
             # protocol writes as soon as it is connected: its bytes come after the request, never before
             chunks = [b"\x05\x00" + REPLY_OK]
+        if sel in ("lost_ok", "losthalf_ok"):
+            # the connection is lost before the server has selected anything (or inside its selection message); what
+            # then still turns up looking like a selection of 'no authentication' selects nothing: the attempt has failed
+            try:
+                if sel == "losthalf_ok":
+                    ep.proto.dataReceived(b"\x05")
+                ep.proto.connectionLost(failure.Failure(error.ConnectionLost("before the selection")))
+            except BaseException:
+                err = True
+            try:
+                ep.proto.dataReceived(b"\x00" if sel == "losthalf_ok" else b"\x05\x00")
+            except BaseException:
+                pass          # late bytes may well be refused loudly; what counts is what was written
+            chunks = []
         try:
             for i, c in enumerate(chunks):
                 ep.proto.dataReceived(c)
